@@ -408,6 +408,14 @@ def mk_fn(name, *args):
             if c == 1 and len(m) == 1 and m[0][1] == 1 and m[0][0][0] == 'fn' and m[0][0][1] == 'rev' and m[0][0][2][0] == 'B' \
                     and m[0][0][2][1] == args[0][1]:
                 return Poly.from_key(m[0][0][2][2])        # rev(rev(x)) = x
+    if name in ('max', 'min', 'nanmax', 'nanmin') and len(args) == 1 and args[0][0] == 'B':
+        inner = Poly.from_key(args[0][2])
+        if inner.is_monomial():
+            (m, c), = inner.t.items()
+            pos = tuple((a, e) for a, e in m if a[0] == 'sym' and a[1].startswith('unit:'))
+            if c > 0 and (pos or c != 1):
+                rest = tuple((a, e) for a, e in m if not (a[0] == 'sym' and a[1].startswith('unit:')))
+                return Poly({pos: c}) * Poly.atom(('fn', name, ('B', args[0][1], Poly({rest: Fraction(1)}).key())))
     if name == 'abs' and len(args) == 1 and args[0][0] == 'P':
         p = Poly.from_key(args[0][1])
         if p.is_const():
